@@ -216,6 +216,33 @@ def assemble(template_path, unit, default_props, skip_fns=None):
             asm.dropped.append('const %s: the function pointers of the rows are kept as names only (ParseFnName); the table becomes three spec functions over %s' % (kv['name'], en))
             i += 1
             continue
+        if s.startswith('//@dispatch '):
+            # `//@dispatch file=… fn=Vm::run enum_file=… enum=OpCode`: which variants of the opcode enum have an arm
+            # `byte if byte == OpCode::V as u8 =>` in the interpreter loop. Generated from the real function on every run.
+            kv = _parse_kv(s[12:])
+            src = get_source(kv['file'])
+            it = src.find(kv['fn'], kind='fn')
+            ft = rsx.FnText(src, it)
+            code = _code_only(ft.body)
+            en = kv['enum']
+            armed = set(re.findall(r'\b\w+\s+if\s+\w+\s*==\s*%s::(\w+)\s+as\s+u8\s*=>' % re.escape(en), code))
+            esrc = get_source(kv['enum_file'])
+            eit = esrc.find(en, kind='enum')
+            ecode = _code_only(esrc.text_of(eit))
+            ebody = re.sub(r'#\[[^\]]*\]', '', ecode[ecode.index('enum'):])
+            vs = [v for v, _ in _variants_of(ebody)]
+            if not armed:
+                raise ExtractError("no dispatch arms `x if x == %s::V as u8 =>` found in %s" % (en, kv['fn']))
+            out.append('// generated from %s:%d (%s, %d dispatch arms) and %s:%d (enum %s, %d variants)'
+                       % (kv['file'], ft.line, kv['fn'], len(armed), kv['enum_file'], esrc.line_of(eit.start), en, len(vs)))
+            out.append('pub open spec fn dispatched(op: %s) -> bool { match op { %s } }'
+                       % (en, ' '.join('%s::%s => %s,' % (en, v, 'true' if v in armed else 'false') for v in vs)))
+            out.append('pub spec const DISPATCH_ARMS: int = %d;' % len(armed))
+            out.append('pub spec const ARMS_NAMING_NO_VARIANT: int = %d;' % len([a for a in armed if a not in vs]))
+            asm.functions.append({'name': '%s (dispatch arms)' % kv['fn'], 'file': kv['file'], 'line': ft.line, 'sha256': ft.sha, 'props': default_props})
+            asm.dropped.append('%s: only the guards of its `match byte` arms are read (which opcode each arm handles); the handlers are separate functions' % kv['fn'])
+            i += 1
+            continue
         if s.startswith('//@lemma '):
             # names an obligation for a hand-written proof fn / verified spec that follows
             kv = _parse_kv(s[9:])
